@@ -5,7 +5,13 @@ Plus a directed, implementation-only case list `stale_tick_cases` (both tiers): 
 `_dispatcher` go on with a handler list computed before the temporary `waitEvent` handlers were removed.  The stale
 closures must be harmless: the caller is resumed exactly once (result XOR TimeoutError) and nothing raises.
 (The Act language of the core model has no `tick` action; the model reaches the same situation through `stop()` outside
-the executing thread, see CV/Proofs/InvWait2Wit.lean.)"""
+the executing thread, see CV/Proofs/InvWait2Wit.lean.)
+
+And `stale_done_cases`: the awaited event OBJECT is fired and then called (`e = bar(); self.fire(e); yield self.call(e)`, as
+`Timer` re-fires its event), so two `bar_done` events reach `_on_done`; a `bar_done` / `generate_events` handler re-enters
+`tick()`.  A repeated or stale `_on_done` must not re-register the consumed callEvent generator: the caller is resumed
+exactly once per wait, a later plain `yield` gets None, nothing raises, and the caller's event completes exactly once
+with `waitingHandlers == 0`."""
 import core_mod
 import framework
 
@@ -13,16 +19,20 @@ import framework
 def run(ctx):
     core_mod.run(ctx, 'C06')
     stale_tick_cases(ctx)
+    stale_done_cases(ctx)
 
 
 def search(ctx):
     core_mod.run(ctx, 'C06')
     stale_tick_cases(ctx)
+    stale_done_cases(ctx)
 
 
 def replay(ctx, case):
     if case.get('kind') == 'stale_tick':
         check_stale(ctx, case)
+    elif case.get('kind') == 'stale_done':
+        check_stale_done(ctx, case)
     else:
         core_mod.replay(ctx, 'C06', case)
 
@@ -151,3 +161,144 @@ def run_stale(case):
             signal.signal(signal.SIGINT, old[0])
             signal.signal(signal.SIGTERM, old[1])
     return outcomes, errors, state['fin']
+
+
+def stale_done_cases(ctx):
+    """where: the handler that re-enters tick() - 'done' = a bar_done handler (priority 1), 'ge' = a generate_events handler
+    (priority 10) - at its `at`-th invocation (counted from the call); `timeout` None/0/1/2; the callee yields `delay` times."""
+    for where in ('done', 'ge'):
+        for at in (1, 2):
+            for timeout in (None, 0, 1, 2):
+                for delay in (0, 1, 2):
+                    for nested in (1, 2):
+                        check_stale_done(ctx, {'kind': 'stale_done', 'where': where, 'at': at, 'timeout': timeout,
+                                               'delay': delay, 'nested': nested})
+
+
+def check_stale_done(ctx, case):
+    r = run_stale_done(case)
+    ctx.case(case, nontrivial=True, validated=True)
+    ctx.count('stale_done', case['where'] + ':' + '+'.join(r['outcomes'] or ['-']))
+    if len(r['outcomes']) > 1 or r['foreign']:
+        ctx.violate(case, 'resumed-twice(stale-done)',
+                    f'outcomes of the one call: {r["outcomes"]}; values received at later plain yields: {r["foreign"]}')
+    elif r['errors']:
+        ctx.violate(case, 'spurious-exception(stale-closure)',
+                    f'no user handler raises, yet exception events were fired: {r["errors"][:2]}')
+    elif not r['outcomes'] or not r['finished'] or r['waiting'] != 0 or r['success'] != 1:
+        ctx.violate(case, 'caller-event-never-completes(stale-done)',
+                    f'outcomes {r["outcomes"]}, finished={r["finished"]}, waitingHandlers={r["waiting"]}, '
+                    f'foo_success fired {r["success"]} times')
+
+
+def run_stale_done(case):
+    import atexit
+    import signal
+    import threading
+    framework.setup_import_path()
+    from circuits import Component, Event, handler
+    from circuits.core import helpers, manager
+
+    class foo(Event):
+        success = True
+
+    class bar(Event):
+        pass
+
+    res = {'outcomes': [], 'foreign': [], 'errors': [], 'finished': False, 'success': 0, 'waiting': None}
+    state = {'armed': False, 'seen': 0, 'nesting': False, 'n': 0, 'ev': None}
+
+    class App(Component):
+        @handler('foo')
+        def on_foo(self, event):
+            state['ev'] = event
+            e = bar()
+            self.fire(e)                        # the event object is fired twice (as Timer does with its event)
+            state['armed'] = True
+            try:
+                if case['timeout'] is None:
+                    x = yield self.call(e)
+                else:
+                    x = yield self.call(e, timeout=case['timeout'])
+                res['outcomes'].append('result' if x.value in (7, [7, 7]) else f'wrong-result:{x.value!r}')
+            except manager.TimeoutError:
+                res['outcomes'].append('timeout')
+            for mark in ('Y1', 'Y2', 'Y3'):
+                try:
+                    got = yield mark
+                    if got is not None:
+                        res['foreign'].append(repr(got))
+                except manager.TimeoutError:
+                    res['outcomes'].append('late-timeout')
+            res['finished'] = True
+
+        if case['delay'] == 0:
+            @handler('bar')
+            def on_bar(self):
+                return 7
+        else:
+            @handler('bar')
+            def on_bar(self):
+                for _ in range(case['delay']):
+                    yield None
+                yield 7
+
+        def nest(self):
+            state['seen'] += 1
+            if state['seen'] == case['at'] and not state['nesting']:
+                state['nesting'] = True
+                for _ in range(case['nested']):
+                    self.tick(0)
+
+        @handler('bar_done', priority=1)
+        def on_bar_done(self, *args):
+            if case['where'] == 'done':
+                self.nest()
+
+        @handler('generate_events', priority=10)
+        def on_ge(self, event):
+            if case['where'] == 'ge' and state['armed']:
+                self.nest()
+
+        @handler('foo_success')
+        def on_foo_success(self, *args):
+            res['success'] += 1
+
+        @handler('started')
+        def on_started(self, *args):
+            self.fire(foo())
+
+        @handler('generate_events', priority=-50)
+        def on_idle(self, event):
+            event.reduce_time_left(0)       # never sleep
+            state['n'] += 1
+            if state['n'] > 40:
+                self.stop()
+
+        @handler('exception')
+        def on_exception(self, etype, evalue, tb, handler=None, fevent=None):
+            res['errors'].append(f'{etype.__name__} in {getattr(fevent, "name", None)}')
+
+    class Sink:
+        def write(self, *_a):
+            pass
+
+        def flush(self):
+            pass
+
+    main = threading.current_thread() is threading.main_thread()
+    if main:
+        old = signal.getsignal(signal.SIGINT), signal.getsignal(signal.SIGTERM)
+    saved = helpers.stderr, manager.stderr
+    helpers.stderr = manager.stderr = Sink()
+    app = App()
+    try:
+        app.run()
+    finally:
+        atexit.unregister(app.stop)
+        helpers.stderr, manager.stderr = saved
+        if main:
+            signal.signal(signal.SIGINT, old[0])
+            signal.signal(signal.SIGTERM, old[1])
+    res['waiting'] = getattr(state['ev'], 'waitingHandlers', None)
+    return res
